@@ -203,7 +203,7 @@ class Gen:
                 ce = ('CIndTarget', N(iid), Z(r.choice([0, 1, 2, 5, 10])))
             else:
                 lo = r.choice([None, 0, 1])
-                hi = r.choice([None, 5, 20]) if lo is not None else r.choice([5, 20])
+                hi = r.choice([None, 0, 5, 20]) if lo is not None else r.choice([0, 5, 20])
                 ce = ('CIndBounds', N(iid), optZ(lo), optZ(hi))
             opt = r.random() < 0.3      # optional indicator constraints bind only when applied
             self.ops.append(('ONewConstraint', N(cid), opt, ce))
